@@ -30,7 +30,7 @@ func init() { registry["C17"] = runC17 }
 var c17Alphabet = []rune{'a', 'z', '*', '?', '+', '[', ']', '-', '!', '\\', '/', '.', ' ', '~', '\n', 'é'}
 
 // extra symbols used only by the random families
-var c17Extra = []rune{'^', ':', '\t', '\r', '0', '9', 'A', 'Z', '_', '@', '{', '\'', '"', ',', '#', 'b', 'y', 'm', 0x01, 0x1f, 0x7f, '日', '😀', 'ß', 0x80, 0x85, 0x9f, 0xa0}
+var c17Extra = []rune{'%', '%', '%', 's', 'd', '{', '}', '^', ':', '\t', '\r', '0', '9', 'A', 'Z', '_', '@', '{', '\'', '"', ',', '#', 'b', 'y', 'm', 0x01, 0x1f, 0x7f, '日', '😀', 'ß', 0x80, 0x85, 0x9f, 0xa0}
 
 const c17NoteSuffix = ". note: filter pattern syntax is explained at https://docs.github.com/en/actions/using-workflows/workflow-syntax-for-github-actions#filter-pattern-cheat-sheet"
 
@@ -115,6 +115,11 @@ func c17NamedChar(m string) (rune, bool) {
 	return v, true
 }
 
+// c17AnnouncesChar: the message starts the way messages that name a character do.
+func c17AnnouncesChar(m string) bool {
+	return strings.HasPrefix(m, "invalid glob pattern. unexpected character '") || strings.HasPrefix(m, "character '")
+}
+
 // ---------------------------------------------------------------------------
 // reference-free invariants on one report
 
@@ -143,6 +148,9 @@ func c17ReportSig(p []rune, isRef bool, msg string, col int, bytesLen int) (stri
 		return "C17:column-outside-pattern:" + kind + ":" + cls, fmt.Sprintf("column %d outside the pattern of %d characters (%s)", col, n, msg)
 	}
 	at := p[col-1]
+	if _, ok := c17NamedChar(msg); !ok && c17AnnouncesChar(msg) {
+		return "C17:named-char-garbled:" + kind + ":" + cls, fmt.Sprintf("the message announces a character but what it quotes is not a character literal (column %d holds %q): %s", col, at, truncate(msg, 160))
+	}
 	if cls == "path-trail-space" && at != ' ' {
 		return "C17:path-trailing-space-column-not-on-space", fmt.Sprintf("trailing-space report at column %d which holds %q", col, at)
 	}
@@ -253,7 +261,10 @@ func c17CheckString(c *Case, st *c17Stats, s string, ntAll bool) {
 			if e.Column == 0 {
 				st.cnt["reports_col_zero"]++
 			}
-			if _, ok := c17NamedChar(e.Message); ok && e.Column > 0 {
+			if nc, ok := c17NamedChar(e.Message); ok && e.Column > 0 {
+				if nc == '%' {
+					st.cnt["api_reports_naming_percent"]++
+				}
 				st.cnt["named_char_checked"]++
 				st.add("named_char_classes", cls)
 			}
@@ -346,6 +357,8 @@ var c17Fragments = []string{
 	"[a-z]", "[ab]", "[a-zA-Z_]", "[0-9]+", "[az]?", "[z-a]", "[]", "[a-]", "[a", "[x]", "[a-a]", "[é-日]", "[日-é]", "[a-z", "[!a]", "[a-z0-9]",
 	"\\[", "\\?", "\\*", "\\+", "\\\\", "\\!", "\\", "\\d", "\\]", "!", "!", " ", "~", "^", ":", "\t", "..", "//", "@{", ".lock", "\n", "\r", "\r\n",
 	"\x01", "\x7f", "feature/", "releases/", "docs/", ".md", "README", "😀",
+	// printf-looking text: reports quote pattern characters, so '%' must survive every formatting step
+	"%", "%", "%s", "%d", "%!", "%%", "%v", "{0}", "[a-%]", "[z-%]", "[%-!]", "[%-z]", "[!-%]", "[%%]", "[a%]", "[é-%]", "%?", "%+", "*%", "%*", "\\%", "!%", "%/", "/%", "%.", "[%", "%]", "%-",
 }
 
 // c17GrammarString concatenates syntactic fragments: unlike uniformly random strings a large share
@@ -410,9 +423,13 @@ func c17StyleOK(p string, style int) bool {
 }
 
 func c17LintPattern(r *Rand) string {
+	if r.Intn(8) == 0 {
+		return c17PercentPattern(r)
+	}
 	switch r.Intn(6) {
 	case 0:
-		fixed := []string{"\\[a", "\\[", "a\\?b", "\\*", "aé ", "é é ", "日本 ", "a b", "a~", "v*+", "v[9-1]", "^foo-", "a??", "[]", "[a", "a[x]", "/foo", "foo/", "foo.", "é?+", "éé[z-a]", "a\\d", "main", "feature/**", "\\+\\\\", "日/[b-a]", "a !", "a:b", "é++", "日\\d.", " a", "a "}
+		fixed := []string{"\\[a", "\\[", "a\\?b", "\\*", "aé ", "é é ", "日本 ", "a b", "a~", "v*+", "v[9-1]", "^foo-", "a??", "[]", "[a", "a[x]", "/foo", "foo/", "foo.", "é?+", "éé[z-a]", "a\\d", "main", "feature/**", "\\+\\\\", "日/[b-a]", "a !", "a:b", "é++", "日\\d.", " a", "a ",
+			"release/[a-%]*", "docs/[z-%]/**", "[%-!]x", "a[z-%]", "é[日-%]%s", "v[9-%]%d", "[%-z]", "100%", "%s", "a%d?", "%%+", "%!", "{0}", "a{0}[b-%]", "%[z-%]%", "a%+?", "%?+", "*%?", "\\%", "a\\%[a-%]"}
 		return fixed[r.Intn(len(fixed))]
 	case 1, 2:
 		return c17GrammarString(r)
@@ -423,10 +440,30 @@ func c17LintPattern(r *Rand) string {
 	if r.Bool() {
 		b = append(b, []rune{'a', 'z', 'é', '/'}[r.Intn(4)])
 	}
+	pct := r.Intn(3) == 0
 	for i := 0; i < n; i++ {
-		b = append(b, c17Alphabet[r.Intn(len(c17Alphabet))])
+		if pct && r.Intn(3) == 0 {
+			b = append(b, '%')
+		} else {
+			b = append(b, c17Alphabet[r.Intn(len(c17Alphabet))])
+		}
 	}
 	return string(b)
+}
+
+// c17PercentPattern: patterns whose reports quote a '%' -- it is the end (or start) of an
+// ill-ordered range, or stands next to a special character.
+func c17PercentPattern(r *Rand) string {
+	pre := []string{"", "a", "release/", "é", "!", "*", "a?", "%", "docs/", "%s"}[r.Intn(10)]
+	post := []string{"", "*", "/**", "x", "%", "+", "?", "%d", "é"}[r.Intn(9)]
+	lo := []rune{'a', 'z', 'A', '9', 'é', '日', '&', '_'}[r.Intn(8)]
+	switch r.Intn(6) {
+	case 0:
+		return pre + "[%-" + string([]rune{'!', '#', '$', ' '}[r.Intn(4)]) + "]" + post
+	case 1:
+		return pre + "[a-z" + string(lo) + "-%]" + post
+	}
+	return pre + "[" + string(lo) + "-%]" + post
 }
 
 func c17LintCase(c *Case, st *c17Stats) {
@@ -587,8 +624,13 @@ func c17LintCase(c *Case, st *c17Stats) {
 			c.Violation(sig, fmt.Sprintf("through Lint, %s %s scalar %q: %s", sc.key, c17StyleNames[sc.style], sc.pat, what), det())
 			continue
 		}
-		if named, ok := c17NamedChar(d.Msg); ok && (d.Col < 1 || d.Col > len(line) || line[d.Col-1] != named) {
-			c.Violation("C17:lint-named-char-not-at-source-column:"+c17StyleNames[sc.style], fmt.Sprintf("diagnostic %s names %q but the source does not have it there", d.String(), named), det())
+		if named, ok := c17NamedChar(d.Msg); ok {
+			if d.Col < 1 || d.Col > len(line) || line[d.Col-1] != named {
+				c.Violation("C17:lint-named-char-not-at-source-column:"+c17StyleNames[sc.style], fmt.Sprintf("diagnostic %s names %q but the source does not have it there", d.String(), named), det())
+			} else if named == '%' {
+				st.add("lint_keys_named_percent", sc.key)
+				st.cnt["lint_reports_naming_percent"]++
+			}
 		}
 	}
 	// mapping check: Lint == API result shifted onto the scalar
@@ -603,6 +645,25 @@ func c17LintCase(c *Case, st *c17Stats) {
 		if len(scalars) == 1 {
 			style = c17StyleNames[scalars[0].style]
 		}
+		// same positions, other text: the rule's message is not <validator message><note>
+		type lc struct{ line, col int }
+		gp, wp := map[lc]int{}, map[lc]int{}
+		for k, n := range got {
+			gp[lc{k.line, k.col}] += n
+		}
+		for k, n := range want {
+			wp[lc{k.line, k.col}] += n
+		}
+		posSame := len(gp) == len(wp)
+		for k, n := range wp {
+			if gp[k] != n {
+				posSame = false
+			}
+		}
+		if posSame {
+			c.Violation("C17:lint-message-not-validator-message-plus-note", "glob diagnostics of Lint stand at the right positions but their text is not the validator's message followed by the fixed note", det())
+			return
+		}
 		c.Violation("C17:lint-column-mapping:"+style, "glob diagnostics of Lint differ from the validator reports mapped onto the YAML scalars", det())
 	}
 	if c.Idx < 3 && len(wantList) > 0 && c.R.Intn(3) == 0 {
@@ -615,7 +676,7 @@ func c17LintCase(c *Case, st *c17Stats) {
 func runC17(r *Run) {
 	r.Rule = "every string over the 16-symbol alphabet {a z * ? + [ ] - ! \\ / . space ~ LF é} up to length 5 (quick) / 6 (thorough), " +
 		"random strings of 1..40 characters over that alphabet plus {^ : TAB CR digits upper-case _ @ { quotes , # control characters, 3- and 4-byte runes}, and fragment-grammar strings; " +
-		"plus randomly placed blocks of 4096 consecutive strings of the next length; each evaluated with ValidateRefGlob and ValidatePathGlob; a sample rendered as plain/single/double quoted scalars of on.push filters through Linter.Lint. " +
+		"plus randomly placed blocks of 4096 consecutive strings of the next length; plus every string containing '%' up to length 4 (quick) / 5 (thorough) over {% a z [ ] - ! \\ ? + * / s}; each evaluated with ValidateRefGlob and ValidatePathGlob; a sample rendered as plain/single/double quoted scalars of on.push filters through Linter.Lint. " +
 		"Non-trivial = distinct string with a definite reference verdict that expects a report for at least one kind or satisfies the antecedent (accepted as ref) of the ref=>path implication " +
 		"(all of them for length <= 4, a 1/64 hash sample of the rest), plus distinct (key, style, pattern) triples with at least one glob diagnostic through Lint. " +
 		"Rule level: whole workflows whose on: mapping lists 1-5 events in random order (push, pull_request, pull_request_target, workflow_run, filter-less webhook events, and workflow_dispatch / schedule / repository_dispatch / workflow_call), " +
@@ -660,6 +721,36 @@ func runC17(r *Run) {
 			}
 			st.flush(c)
 		}})
+	}
+	// '%' next to every special character, as member and as range end: exhaustive over a second alphabet
+	{
+		alpha := []rune{'%', 'a', 'z', '[', ']', '-', '!', '\\', '?', '+', '*', '/', 's'}
+		maxP := r.Q(4, 5)
+		for n := 1; n <= maxP; n++ {
+			n := n
+			total := c17Pow(len(alpha), n)
+			fams = append(fams, &Family{Name: fmt.Sprintf("percent-len%d", n), N: (total + blk - 1) / blk, Do: func(c *Case) {
+				st := c17NewStats()
+				lo := c.Idx * blk
+				hi := lo + blk
+				if hi > total {
+					hi = total
+				}
+				buf := make([]rune, n)
+				for i := lo; i < hi; i++ {
+					x := i
+					for k := 0; k < n; k++ {
+						buf[k] = alpha[x%len(alpha)]
+						x /= len(alpha)
+					}
+					s := string(buf)
+					if strings.ContainsRune(s, '%') {
+						c17CheckString(c, st, s, n <= 3)
+					}
+				}
+				st.flush(c)
+			}})
+		}
 	}
 	fams = append(fams, &Family{Name: "empty", N: 1, Do: func(c *Case) {
 		st := c17NewStats()
@@ -732,5 +823,9 @@ func runC17(r *Run) {
 		if !r.SetHas("lint_keys_with_reports", k) {
 			r.Inconclusive("coverage floor: no glob diagnostic for on.push." + k + " through Lint")
 		}
+		if !r.SetHas("lint_keys_named_percent", k) {
+			r.Inconclusive("coverage floor: no glob diagnostic naming '%' (correctly, at its column) for on.push." + k + " through Lint")
+		}
 	}
+	floor("api_reports_naming_percent", 1000)
 }
